@@ -312,6 +312,33 @@ class B:
         self.both("body", ["mon.write(1)"])
         return "pattern_from_history"
 
+    def s_branch_isolation(self):
+        """a tracked pattern is re-assigned and used inside one branch; a sibling branch uses the name too and must see the value from before the `if`"""
+        led, pat = self.nm("led"), self.nm("pat")
+        self.both("body", [f"{led} = Led(6)"])
+        base = [self.draw(st.sampled_from([0, 1, 128, 255])) for _ in range(3)]
+        c = self.nm("c")
+        self.reads += 1
+        self.both("body", [f"{c} = analog_read(\"A0\")"])
+        nb = self.draw(st.integers(2, 3))
+        lit, var = [], [f"{pat} = {base!r}"]
+        heads = [f"if {c} > 700:", f"elif {c} > 300:", "else:"] if nb == 3 else [f"if {c} > 500:", "else:"]
+        for i, hd in enumerate(heads):
+            lit.append(hd); var.append(hd)
+            if self.draw(st.booleans()) and i < len(heads) - 1:
+                new = [self.draw(st.sampled_from([0, 1, 64, 255])) for _ in range(3)]
+                var.append(f"    {pat} = {new!r}")
+                cur = new
+            else:
+                cur = base
+            lit.append(f"    {led}.flash_pattern({cur!r}, 1)")
+            var.append(f"    {led}.flash_pattern({pat}, 1)")
+            lit.append(f"    mon.write({i})"); var.append(f"    mon.write({i})")
+        self.body["lit"] += lit
+        self.body["var"] += var
+        self.stale_possible = True
+        return "branch_isolation"
+
     def s_glyph(self):
         if getattr(self, "lcd", None) is None:
             self.lcd = "lcd"
@@ -395,7 +422,7 @@ class B:
         self.stale_possible = True
         return "param_shadow"
 
-KINDS = ["pattern_from_history", "param_shadow", "sleep", "led_args", "range", "analog_write", "len_safe", "flash_pattern", "glyph", "sensor_model", "runtime_operand"]
+KINDS = ["branch_isolation", "pattern_from_history", "param_shadow", "sleep", "led_args", "range", "analog_write", "len_safe", "flash_pattern", "glyph", "sensor_model", "runtime_operand"]
 
 
 @st.composite
